@@ -71,9 +71,12 @@ type Case struct {
 	// test, on the same Generator, with no Reset in between.
 	ErrFirst bool `json:"err_first,omitempty"`
 	// SwitchDest: with Jobs > 1, the Generator gets a new destination object for the later job.
-	SwitchDest bool       `json:"switch_dest,omitempty"`
-	ViewBox    [4]ops.F32 `json:"viewbox"`
-	Rect       [4]int     `json:"rect"`
+	SwitchDest bool `json:"switch_dest,omitempty"`
+	// Retarget: with a Renderer as destination, after the first filled path the Renderer is aimed at
+	// this rectangle (x, y, w, h) and another path is filled with the gradient still in the registers.
+	Retarget *[4]int    `json:"retarget,omitempty"`
+	ViewBox  [4]ops.F32 `json:"viewbox"`
+	Rect     [4]int     `json:"rect"`
 }
 
 func arg(c Case, i int) float32 {
@@ -341,10 +344,36 @@ func oneJob(c Case, gp *generate.Generator, hook *ops.Recorder, enc *encode.Enco
 	sx := float64(c.Rect[2]) / (float64(vb[2]) - float64(vb[0]))
 	sy := float64(c.Rect[3]) / (float64(vb[3]) - float64(vb[1]))
 	T := p.Transform
-	return checkGeometry(c, func(x, y float64) (float64, float64) {
+	if err := checkGeometry(c, func(x, y float64) (float64, float64) {
 		px, py := (x-float64(vb[0]))*sx, (y-float64(vb[1]))*sy
 		return T[0]*px + T[1]*py + T[2], T[3]*px + T[4]*py + T[5]
-	}, "rendered paint via "+c.Dest)
+	}, "rendered paint via "+c.Dest); err != nil {
+		return err
+	}
+	// the Renderer is aimed at another rectangle (the next size of the same icon) and the same
+	// gradient, still in the registers, fills another path: the geometry holds under the new map
+	if zr, ok := hook.Inner.(*render.Renderer); ok && c.Retarget != nil {
+		r2 := image.Rect(c.Retarget[0], c.Retarget[1], c.Retarget[0]+c.Retarget[2], c.Retarget[1]+c.Retarget[3])
+		zr.SetRasterizer(rr, r2)
+		g.StartPath(0, vb[0], vb[1])
+		g.AbsLineTo(vb[2], vb[1])
+		g.AbsLineTo(vb[2], vb[3])
+		g.ClosePathEndPath()
+		p2 := rr.Calls[len(rr.Calls)-1].P
+		if rr.Calls[len(rr.Calls)-1].K != rast.Draw || p2 == nil || p2.Kind != "gradient" {
+			return harness.Violatef("c19/not-rendered", "after re-targeting the Renderer, a path filled with the same gradient was not drawn with a gradient")
+		}
+		sx2 := float64(c.Retarget[2]) / (float64(vb[2]) - float64(vb[0]))
+		sy2 := float64(c.Retarget[3]) / (float64(vb[3]) - float64(vb[1]))
+		T2 := p2.Transform
+		err := checkGeometry(c, func(x, y float64) (float64, float64) {
+			px, py := (x-float64(vb[0]))*sx2, (y-float64(vb[1]))*sy2
+			return T2[0]*px + T2[1]*py + T2[2], T2[3]*px + T2[4]*py + T2[5]
+		}, "rendered paint after re-targeting the Renderer")
+		zr.SetRasterizer(rr, rect)
+		return err
+	}
+	return nil
 }
 
 func how(c Case) string {
@@ -410,6 +439,17 @@ func checkGeometry(c Case, G func(x, y float64) (float64, float64), where string
 		d := func(x, y float64) float64 { gx, gy := G(x, y); return math.Hypot(gx, gy) }
 		for _, e := range []error{near(d(cx, cy), 0, cond, "distance at the centre"), near(d(cx+rx, cy+ry), 1, cond, "distance at the first axis end point"), near(d(cx+sx, cy+sy), 1, cond, "distance at the second axis end point")} {
 			if e != nil {
+				return e
+			}
+		}
+		// the ellipse with conjugate half-axes r and s is c + r*cos(t) + s*sin(t): offset 1 all
+		// the way round, offset 1/2 half-way out
+		for _, deg := range []float64{45, 120, 200, 250, 333} {
+			ct, st := math.Cos(deg*math.Pi/180), math.Sin(deg*math.Pi/180)
+			if e := near(d(cx+rx*ct+sx*st, cy+ry*ct+sy*st), 1, cond, fmt.Sprintf("distance on the ellipse at parameter %v degrees", deg)); e != nil {
+				return e
+			}
+			if e := near(d(cx+(rx*ct+sx*st)/2, cy+(ry*ct+sy*st)/2), 0.5, cond, fmt.Sprintf("distance half-way out at parameter %v degrees", deg)); e != nil {
 				return e
 			}
 		}
@@ -541,6 +581,27 @@ func genCase(t *rapid.T) (Case, []string) {
 				c.F[2], c.F[3], c.F[4], c.F[5] = ops.F32(r), 0, 0, ops.F32(s2)
 			}
 			labels = append(labels, "elliptical-axes-exactly-axis-aligned")
+		} else if q < 11 {
+			// the second axis vector is the exact mirror image of the first in a coordinate axis
+			// (an ellipse drawn from its "diagonal" conjugate diameters), or the first turned by
+			// exactly a quarter (a circle given as an ellipse), or equal in length to it
+			ox, oy := c.F[4], c.F[5]
+			switch q {
+			case 8:
+				c.F[4], c.F[5] = c.F[2], -c.F[3]
+			case 9:
+				c.F[4], c.F[5] = -c.F[2], c.F[3]
+			default:
+				c.F[4], c.F[5] = -c.F[3], c.F[2]
+			}
+			// a mirror image of a nearly axis-aligned vector is nearly parallel to it: keep the
+			// geometry non-degenerate (the angle between the axes at least as open as elsewhere)
+			rx, ry, sx, sy := float64(c.F[2]), float64(c.F[3]), float64(c.F[4]), float64(c.F[5])
+			if sin := math.Abs(rx*sy-sx*ry) / (math.Hypot(rx, ry) * math.Hypot(sx, sy)); !(sin >= 0.24) {
+				c.F[4], c.F[5] = ox, oy
+				break
+			}
+			labels = append(labels, "elliptical-second-axis-is-an-exact-mirror-or-quarter-turn-of-the-first")
 		}
 	default:
 		c.Radial = rapid.Bool().Draw(t, "radial")
@@ -566,6 +627,10 @@ func genCase(t *rapid.T) (Case, []string) {
 	x0, y0 := rapid.IntRange(-64, 64).Draw(t, "vx"), rapid.IntRange(-64, 64).Draw(t, "vy")
 	c.ViewBox = [4]ops.F32{ops.F32(x0), ops.F32(y0), ops.F32(x0 + w), ops.F32(y0 + h)}
 	c.Rect = [4]int{rapid.IntRange(0, 9).Draw(t, "rx"), rapid.IntRange(0, 9).Draw(t, "ry"), w << uint(rapid.IntRange(0, 3).Draw(t, "kx")), h << uint(rapid.IntRange(0, 3).Draw(t, "ky"))}
+	if c.Dest == "renderer" && rapid.IntRange(0, 2).Draw(t, "retarget") == 0 {
+		c.Retarget = &[4]int{rapid.IntRange(0, 9).Draw(t, "rtx"), rapid.IntRange(0, 9).Draw(t, "rty"), w << uint(rapid.IntRange(0, 4).Draw(t, "rtkx")), h << uint(rapid.IntRange(0, 4).Draw(t, "rtky"))}
+		labels = append(labels, "renderer-re-targeted-between-two-fills-of-the-same-gradient")
+	}
 	if rapid.IntRange(0, 4).Draw(t, "errfirst") == 0 {
 		c.ErrFirst = true
 		labels = append(labels, "a-rejected-helper-call-just-before")
